@@ -21,6 +21,7 @@ fn dispatch(prop: &str, ctx: &Ctx, replay: Option<&[String]>) -> bool {
   }
   match prop {
     "C01" => p!(c01),
+    "C10" => p!(c10),
     _ => false,
   }
 }
